@@ -34,18 +34,27 @@ var hashPool = []interface{}{hashT1{}, hashT2{}, hashT3{}, hashT4{}, hashT5{}, h
 func childHashMain() {
 	order := os.Getenv("VERIF_HASH_ORDER")
 
-	for _, f := range strings.Split(order, ",") {
-		if f == "" {
-			continue
+	// "a,b|c" = GobRegister(a, b); GobRegister(c)
+	for _, group := range strings.Split(order, "|") {
+		var vals []interface{}
+
+		for _, f := range strings.Split(group, ",") {
+			if f == "" {
+				continue
+			}
+
+			i, err := strconv.Atoi(f)
+			if err != nil || i < 0 || i >= len(hashPool) {
+				fmt.Println("bad order")
+				os.Exit(2)
+			}
+
+			vals = append(vals, hashPool[i])
 		}
 
-		i, err := strconv.Atoi(f)
-		if err != nil || i < 0 || i >= len(hashPool) {
-			fmt.Println("bad order")
-			os.Exit(2)
+		if len(vals) > 0 {
+			cache.GobRegister(vals...)
 		}
-
-		cache.GobRegister(hashPool[i])
 	}
 
 	fmt.Printf("HASH=%d\n", cache.GobTypesHash())
